@@ -438,7 +438,10 @@ ADDENDA2 = {
             "is the first thing the library does in its process", ""),
     "C15": ("", " Lone carriage returns before the character; the oracle accepts either "
             "definition of a line (LF; CR LF | CR | LF) if lineno and colno use the same."),
-    "C16": ("", " CR-only texts with dash continuations and empty values; a fixed list of "
+    "C16": ("; new-process shards: what a fresh instance gives for an input alone is also "
+            "worked out in a fork of a process that has only imported the library, so "
+            "that state kept on classes or modules counts as state between calls",
+            " CR-only texts with dash continuations and empty values; a fixed list of "
             "encode specifications (failing pointer statements, symbol strings) in every "
             "history."),
     "C18": ("", " Substitute quantity classes include one that refuses some units and one "
